@@ -53,6 +53,18 @@ class FuncVal(Value):
 
 
 @dataclass(eq=False)
+class PartialVal(Value):
+    """functools.partial(fn, *args, **kwargs): a callable with leading positionals and keywords already supplied"""
+    fn: Any
+    args: tuple
+    kwargs: dict
+
+    def as_term(self):
+        return op("partial", to_term(self.fn), *[to_term(a) for a in self.args],
+                  *[sp.Tuple(Str(k), to_term(v)) for k, v in sorted(self.kwargs.items())])
+
+
+@dataclass(eq=False)
 class LambdaVal(Value):
     node: ast.Lambda
     env: "Env"
@@ -388,6 +400,8 @@ class Interp:
             return self.instantiate(fv.cls, args, kwargs, env, node)
         if isinstance(fv, LambdaVal):
             return self.call_lambda(fv, args, kwargs)
+        if isinstance(fv, PartialVal):
+            return self.call(fv.fn, list(fv.args) + list(args), {**fv.kwargs, **kwargs}, env, node)
         if isinstance(fv, Ext):
             self.ext_used.setdefault(fv.chain, self.loc(env, node) if node is not None else "")
             return self.lib.call_ext(self, fv.chain, args, kwargs, env, node)
